@@ -561,4 +561,62 @@ def rule_no_hidden_instance_state(ctx: Ctx, rule: str = "C16.fresh"):
     rep.ok(rule, "package", "no object tied to an instance is stored into that instance's __dict__ behind __getstate__'s back", sites=n)
 
 
-RULES = [rule_inventory, rule_cachekey, rule_fresh, rule_inherit, rule_defwrite, rule_own_arguments, rule_no_process_wide_memo, rule_no_hidden_instance_state]
+def rule_declarations_all_or_nothing(ctx: Ctx):
+    """C16.defwrite: `a.to(x, y, ...)` builds all its transitions before it attaches any to the (possibly inherited, shared)
+    source state: a declaration rejected half-way leaves nothing behind on a state other classes use."""
+    from . import c15
+
+    c15.rule_tofrom(ctx, rule="C16.defwrite")
+
+
+def rule_bound_events_carry_no_definition(ctx: Ctx):
+    """C16.defwrite: what an instance hands out (`sm.<event>`) holds no reference to the class-level transitions: the
+    declaration helpers (`.after(f)`, `.cond(f)` ...) called through an instance's event have nothing to write to."""
+    from . import c13
+
+    c13.rule_bind(ctx, rule="C16.defwrite")
+
+
+def rule_from_all_or_nothing(ctx: Ctx):
+    """C16.defwrite: `b.from_(x, y, ...)` must not attach a transition to an origin (possibly a state inherited from, and shared
+    with, another class) before every transition of the call was built: the constructor of a later one may reject the declaration
+    (`internal=True` with a second origin), and what was attached before stays on the shared state."""
+    rep = ctx.rep
+    fr = ctx.fn("_FromState.__call__")
+    early = None
+    n = 0
+    for p in ctx.paths(fr, inline=None, exc_edges="none", unroll=2):
+        evs = p.events
+        ctors = [e for e in evs if e.kind == "call" and show(e.term.func) == "Transition"]
+        regs = [e for e in evs if e.kind == "call" and isinstance(e.term.func, ast.Attribute) and e.term.func.attr == "add_transitions"
+                and xshow(e.term.func.value, evs).endswith(".transitions")]
+        if len(ctors) >= 2:
+            n += 1
+            if any(r.idx < ctors[-1].idx for r in regs):
+                early = next(r for r in regs if r.idx < ctors[-1].idx)
+    built_first = any(isinstance(c, (ast.GeneratorExp, ast.ListComp)) and isinstance(c.elt, ast.Call) and show(c.elt.func) == "Transition"
+                      for c in own_nodes(fr.node))
+    if not built_first:
+        rep.floor("C16.defwrite", "paths of from_() building two transitions", n, 1)
+    else:
+        # the comprehension that builds the transitions is complete before the loop that attaches them starts
+        cpos = min(c.lineno for c in own_nodes(fr.node) if isinstance(c, (ast.GeneratorExp, ast.ListComp)))
+        regs_before = [x for x in own_nodes(fr.node) if isinstance(x, ast.Call) and isinstance(x.func, ast.Attribute) and x.func.attr == "add_transitions"
+                       and x.lineno < cpos]
+        if regs_before:
+            early = type("E", (), {"loc": lambda self_: fr.loc(regs_before[0])})()
+        lazy = [c for c in own_nodes(fr.node) if isinstance(c, ast.GeneratorExp) and isinstance(c.elt, ast.Call) and show(c.elt.func) == "Transition"]
+        for c in lazy:
+            # a generator expression is only built when consumed: it must be consumed by the list constructor right there
+            par = next((x for x in own_nodes(fr.node) if isinstance(x, ast.Call) and c in x.args), None)
+            rep.check(par is not None and show(par.func) in ("TransitionList", "list", "tuple"), "C16.defwrite", fr.loc(c),
+                      "the transitions are built eagerly (the generator is consumed by the list constructor) before any is attached", fr.key, show(c)[:120])
+    if early is not None:
+        rep.violation("C16.defwrite", early.loc(), "from_() attaches a transition to its origin state before the next one is built: when a later "
+                      "constructor rejects the declaration, the earlier transitions stay on states shared with other classes",
+                      fr.key, "attach before the last Transition(...) of the call")
+    else:
+        rep.ok("C16.defwrite", fr.loc(), "from_() builds every transition before it attaches any")
+
+
+RULES = [rule_inventory, rule_cachekey, rule_fresh, rule_inherit, rule_defwrite, rule_own_arguments, rule_no_process_wide_memo, rule_no_hidden_instance_state, rule_declarations_all_or_nothing, rule_bound_events_carry_no_definition, rule_from_all_or_nothing]
